@@ -9,6 +9,9 @@ package dag
 //@   props C07 C08
 //@   nopanic
 //@   requires repo != nil && def.OperationUnmarshaler != nil
+//@   modifies nothing
+//@   opt trusted_frame
+//@   ensures [pack-or-error] result1 == nil ==> result != nil
 
 // Definition.OperationUnmarshaler is a function-typed field: the contract below is what callers assume
 // of it; bug.operationUnmarshaler (the implementation used for bugs) is verified against the same clause.
@@ -33,7 +36,20 @@ package dag
 //@     invariant ops == nil || fresh(ops)
 //@     invariant forall k int :: { ops[k] } 0 <= k && k < len(ops) ==> ops[k] != nil
 
+// Validate only reads the pack.
+//@ func (*operationPack).Validate
+//@   trusted
+//@   requires opp != nil
+//@   modifies nothing
+
 //@ func read
 //@   props C07 C03 C01
 //@   nopanic
 //@   requires repo != nil && def.OperationUnmarshaler != nil && wrapper != nil
+//@   loop 3
+//@     invariant opsCount >= 0
+//@     invariant forall h repository.Hash :: { oppMap[h] } h in oppMap ==> oppMap[h] != nil
+//@     invariant forall k int :: { BFSOrder[k] } 0 <= k && k <= rangeindex ==> BFSOrder[k].Hash in oppMap
+//@   loop 7
+//@     invariant forall k int :: { oppSlice[k] } 0 <= k && k < len(oppSlice) ==> oppSlice[k] != nil
+//@     invariant oppSlice == nil || fresh(oppSlice)
